@@ -132,6 +132,13 @@ PROPS = {
         fields=[3, 6, 15, 16, 20],
         rule=CHAIN_RULE + "; NFTs of this chain are minted and transferred between record and payout; records are created at every offset of a round",
         assumptions=SETTLE_ASSUME),
+    'C13': dict(
+        theorems=['C13_other_transactions_invisible', 'C13_own_message_depends_on_own_view', 'C13_end_block', 'C13_isolation'],
+        runs=[chain('iso', 'isolation', 48, 1600, 'check_C13'),
+              chain('faults', 'faults', 16, 400, 'check_C11')],
+        fields=[2, 3, 4, 5, 15, 16, 20, 21],
+        rule=CHAIN_RULE + "; isolation profile: 2-4 tenants with disjoint operators and NFTs; every history is executed a second time with the other tenants' transactions (and the bank sends to their treasuries) removed, and tenant 1's tenant record, pending records, treasury balances, typed events and transaction results are compared block by block",
+        assumptions=SETTLE_ASSUME + ["C13_isolation quantifies over pairs of histories with: no injected back-end faults (the fault plan of the model is positional across tenants), NFT transfers as the only environment events, tenant t's transactions one message each, recipients that are 20-byte addresses, and a depositor's wallet covering its deposit equally in both runs; back-end faults hitting other tenants are covered by the correspondence runs and by C11"]),
     'C14': dict(
         theorems=['C14_conserved', 'C14_never_more_than_pool', 'C14_share', 'C14_credit_lines', 'C14_contribution_exact', 'C14_reward_frame'],
         runs=[chain('oracle', 'oracle', 64, 2400, 'check_C14'),
@@ -203,6 +210,8 @@ SETTLE_TECH = "Coq proof: invariant by induction over histories of the generalis
 ANTE_TECH = "Coq proof: structural induction over nested message trees with the authz limiter's nesting counter modelled as coded + differential correspondence on transaction shapes through ABCI"
 
 LEVELS = {
+    'C13': dict(text="Unbounded relational theorems: (1) a successful transaction of other tenants leaves tenant t's view (tenant record, pending records, index, id counter, treasury, token supply) unchanged; (2) t's own message has the same verdict and effect in any two states that agree on t's view; (3) the end-block pays / drops / defers t's records identically in two such states whatever other tenants exist and can pay (fold over arbitrary tenant lists, payout congruence); (4) C13_isolation: for every pair (history, history without the other tenants' transactions) t's state after every prefix and the log of its records with heights are equal. Correspondence: every history of the isolation profile is re-executed on the real app without the other tenants and tenant 1's observables are compared.",
+                note=PROOF_NOTE, technique="Coq proof: simulation between two runs of the settlement machine (non-interference: frame + congruence lemmas) + paired executions on the real app"),
     'C18': dict(text="The property is FALSE of the code (known finding F19) and that is what is proved: C18_binding_refuted exhibits two accepted openings of one commitment (the deprecated topic hides part of the committed bytes), further families are given as examples, and every witness is replayed on the real message server. Proved residual guarantee, unbounded: the committed bytes together with the cut positions determine the opening; with a collision-free digest equal digests and equal cuts mean equal openings. The check reports openings of the same committed bytes as KNOWN-FINDING and any accepted opening of different bytes as a violation.",
                 note=PROOF_NOTE, technique="Coq proof of the refutation and of the residual binding theorem + differential correspondence on pairs of openings (exported Go functions and ABCI)"),
     'C19': dict(text="The property is FALSE of the code (known finding F20): proved refutation with witnesses (2^160 and 0; signed ids). Proved, unbounded: every plain token id below 2^160 (any casing, leading zeros) is accepted and stored as exactly the number it denotes, hence two such ids collapse only if equal - via a theorem that go-ethereum's lenient hex decoder computes the hex number on well-formed input. The check reports collapses involving an id >= 2^160 or a signed id as KNOWN-FINDING and any other collapse / misrecording as a violation.",
@@ -242,5 +251,4 @@ LEVELS = {
                 note=PROOF_NOTE, technique="Coq proof (lia/nia over Z with explicit uint64/int64 wrap) + differential correspondence via vm_compute"),
 }
 
-NOT_APPLICABLE = {p: "work in progress in this session: model exists, check not yet registered" for p in
-                  ['C13']}
+NOT_APPLICABLE = {}
